@@ -1205,6 +1205,19 @@ end:
 	return x, nil
 }
 `
+	src += `type exoticIface interface{ M() }
+// @implements exoticIface
+type _ struct{ buf []byte }
+// @implements exoticIface
+// @immutable
+// @constructor NewNothing
+type exoticFn = func() string
+// @implements &exoticIface
+// @testonly
+type exoticList = []int
+// @implements exoticIface
+type exoticAnon = struct{ n int }
+`
 	src += `type Link *Link
 type RingA *RingB
 type RingB *RingA
